@@ -15,8 +15,8 @@ def make_jobs(prop, r, n, quick):
     jobs = []
     for i in range(n):
         nfn = r.choice([2, 3, 3, 4])
-        feats = {"C02": ("call", "batch", "res", "raise"), "C10": ("call", "call", "batch", "res", "raise"),
-                 "C15": ("call", "batch", "batch", "raise"), "C16": ("call", "call", "batch", "raise")}.get(prop, ("call", "batch", "res", "raise"))
+        feats = {"C02": ("call", "batch", "res", "raise", "bad"), "C10": ("call", "call", "batch", "res", "raise"),
+                 "C15": ("call", "batch", "batch", "raise", "bad"), "C16": ("call", "call", "batch", "raise")}.get(prop, ("call", "batch", "res", "raise"))
         p = progs.random_prog(r, nfn=nfn, features=feats)
         nops = r.randint(5, 9)
         ops = progs.random_ops(r, nfn, nops, ctx=(prop in ("C16", "C10") or r.random() < 0.3), batch=(prop != "C16" or r.random() < 0.3),
